@@ -1,10 +1,75 @@
 import ScyllaVerif.Model.Util
 import ScyllaVerif.Model.Sharding
+import ScyllaVerif.Model.C11Connect
 /-! Line-protocol driver for C11.  Input: `<case>\t<implementation output>`; output: the model's line.
-For the two nondeterministic operations (`iter`, `draw`) the model runs as a *checker*: it echoes the
-implementation's line iff that line is producible by some random choice, else prints `REJECT …`. -/
+For the nondeterministic operations (`iter`, `draw`, `iterpub`, `drawpub`: a random pivot / index; `conn`: the pivot of
+the iterator the loop walks; `sess`: which shard the pool's first connection lands on) the model runs as a *checker*: it
+echoes the implementation's line iff that line is producible by some random choice, else prints `REJECT …`.
+`skip …` (the environment did not allow a network case: nothing was judged) is echoed. -/
 namespace ScyllaVerif.Drive.C11
-open ScyllaVerif.Util ScyllaVerif.Sharding
+open ScyllaVerif.Util ScyllaVerif.Sharding ScyllaVerif.C11Connect
+
+/-- A SUPPORTED entry word: `-` = key absent, `e` = empty value list, `""` = the empty string, else the first value
+itself (the harness appends a second value, which must be ignored). -/
+def entryWord (w : String) : Option (List String) :=
+  if w == "-" then none else if w == "e" then some [] else if w == "\"\"" then some ["", "7"] else some [w, "7"]
+
+/-- The per-port behaviour of `open_connection` a `conn` / `sess` case scripts: a port held by a bound socket answers
+EADDRINUSE at `bind`; a port whose 4-tuple is taken by an established connection answers EADDRNOTAVAIL at `connect`
+when the driver binds with SO_REUSEADDR (EADDRINUSE at `bind` otherwise); a port the mock node hangs up on fails
+with an error that is NOT address-unavailable; every other port connects. -/
+def scripted (reuse : Bool) (inuse taken broken : List Nat) : Nat → Except ConnErr Unit := fun p =>
+  if inuse.contains p then .error (.io .addrInUse)
+  else if taken.contains p then .error (.io (if reuse then .addrNotAvailable else .addrInUse))
+  else if broken.contains p then .error .notIo
+  else .ok ()
+
+def connCheck (n s lo hi : Nat) (reuse : Bool) (inuse taken broken : List Nat) (impl : String) : String :=
+  let f := scripted reuse inuse taken broken
+  let poss := possibleResults n s lo hi f
+  let describe : OpenResult → String
+    | .connected p => s!"ok {p}"
+    | .failed p _ => s!"err {p} other"
+    | .noSourcePort => s!"nosource {s}"
+  let expected := " | ".intercalate (poss.map describe).eraseDups
+  match words impl with
+  | "skip" :: _ => impl
+  | ["ok", p] =>
+    match p.toNat? with
+    | some p => if poss.contains (.connected p) then impl else "REJECT expected-one-of " ++ expected
+    | none => "REJECT unparsable"
+  | ["nosource", s'] =>
+    if s'.toNat? == some s && poss.contains .noSourcePort then impl else "REJECT expected-one-of " ++ expected
+  | ["err", p, "other"] =>
+    match p.toNat? with
+    | some p => if poss.any (fun r => match r with | .failed q _ => q == p | _ => false) then impl
+                else "REJECT expected-one-of " ++ expected
+    | none => "REJECT unparsable"
+  | _ => "REJECT expected-one-of " ++ expected
+
+/-- `sess`: one word per shard - the source port of the pool's connection to that shard when it lies in the configured
+range, `x` otherwise. Every port must be a free port of its shard; only ONE shard that has a free port may be without
+(the pool's first connection goes to the non-shard-aware port and lands on an arbitrary shard). -/
+def sessCheck (n lo hi : Nat) (reuse : Bool) (inuse taken : List Nat) (impl : String) : String :=
+  let f := scripted reuse inuse taken []
+  match words impl with
+  | "skip" :: _ => impl
+  | ["shards", l] =>
+    let ws := l.splitOn ","
+    if ws.length != n then "REJECT expected-one-entry-per-shard" else
+    let judged := (List.range n).zip ws |>.map (fun (s, w) =>
+      let frees := (ports n s lo hi).filter (fun p => match f p with | .ok _ => true | .error _ => false)
+      if w == "x" then (true, !frees.isEmpty)
+      else match w.toNat? with
+        | some p => (frees.contains p, false)
+        | none => (false, false))
+    if judged.all (·.1) && (judged.filter (·.2)).length ≤ 1 then impl
+    else "REJECT a-shard-with-a-free-port-has-no-connection-from-the-configured-range"
+  | _ => "REJECT unparsable"
+
+/-- A long port list in a REJECT line: its length and its first elements. -/
+def brief (ps : List Nat) : String :=
+  if ps.length ≤ 8 then natList ps else s!"{ps.length}-ports:" ++ natList (ps.take 4) ++ ",.."
 
 def optNat : Option Nat → String
   | none => "none"
@@ -51,8 +116,9 @@ def run (case impl : String) : String :=
     match words case with
     | ["shardopts", a, b, c] =>
       -- an entry is `-` (key absent), `e` (empty value list), a decimal number, or any other word (not a number)
-      let entry (w : String) : Entry :=
-        if w == "-" then .absent else if w == "e" then .empty else .val w.toNat?
+      -- the first value goes through the exact accept set of `parse::<u16>` / `parse::<u8>` (`parseUnsigned`: `+5` and `007`
+      -- are numbers, `1_0` and `""` are not), not through Lean's `String.toNat?`
+      let entry (w : String) : Entry := entryOf (entryWord w)
       match parseShardOptions (entry a) (entry b) (entry c) with
       | .ok si => s!"ok {si.shard} {si.nrShards} {si.msbIgnore}"
       | .error .noShardInfo => "err noShardInfo"
@@ -61,6 +127,52 @@ def run (case impl : String) : String :=
       | .error (.info .parse) => "err parse"
       | .error (.info .zeroShards) => "err zeroShards"
       | .error (.info .shardOutOfRange) => "err shardOutOfRange"
+    | ["features", "plain", a, b, c, p, pssl] =>
+      let o : Supported := ⟨entryWord a, entryWord b, entryWord c, entryWord p, entryWord pssl⟩
+      let info := match shardInfoOf o with
+        | some si => s!"{si.shard}/{si.nrShards}/{si.msbIgnore}"
+        | none => "none"
+      s!"info={info} port={optNat (shardAwarePortOf o false)}"
+    | ["drawpub", n, s, _k] =>
+      match n.toNat?, s.toNat? with
+      | some n, some s =>
+        let ps := ports n s ephemeralLo ephemeralHi
+        -- `drawPub n s idx` panics for every index iff the shard is out of range or the candidate list is empty
+        let panics := match drawPub n s 0 with | .panic => true | .value _ => false
+        if impl.trimAscii.toString == "panic" then (if panics then impl else "REJECT expected-some-of " ++ brief ps)
+        else match parseNatList impl.trimAscii.toString with
+          | none => "REJECT unparsable"
+          | some obs => if !panics && !obs.isEmpty && obs.all (fun p => ps.contains p) then impl
+                        else if panics then "REJECT expected-panic" else "REJECT expected-subset-of " ++ brief ps
+      | _, _ => "bad-case"
+    | ["iterpub", n, s] =>
+      match n.toNat?, s.toNat? with
+      | some n, some s =>
+        match iterPub n s 0 with
+        | .panic => if impl.trimAscii.toString == "panic" then impl else "REJECT expected-panic"
+        | .value _ =>
+          let ps := ports n s ephemeralLo ephemeralHi
+          match parseNatList impl.trimAscii.toString with
+          | none => "REJECT unparsable"
+          | some [] => if ps.isEmpty then impl else "REJECT expected-rotation-of " ++ brief ps
+          | some (h :: t) =>
+            match ps.idxOf? h with
+            | none => "REJECT expected-rotation-of " ++ brief ps
+            | some pivot => if iterPub n s pivot == .value (h :: t) then impl else "REJECT expected-rotation-of " ++ brief ps
+      | _, _ => "bad-case"
+    | ["range", lo, hi] =>
+      match lo.toNat?, hi.toNat? with
+      | some lo, some hi => if rangeNew lo hi then "ok" else "err"
+      | _, _ => "bad-case"
+    | ["conn", n, s, lo, hi, reuse, inuse, taken, broken] =>
+      match n.toNat?, s.toNat?, lo.toNat?, hi.toNat?, reuse.toNat?, parseNatList inuse, parseNatList taken, parseNatList broken with
+      | some n, some s, some lo, some hi, some reuse, some inuse, some taken, some broken =>
+        connCheck n s lo hi (reuse != 0) inuse taken broken impl
+      | _, _, _, _, _, _, _, _ => "bad-case"
+    | ["sess", n, lo, hi, reuse, inuse, taken] =>
+      match n.toNat?, lo.toNat?, hi.toNat?, reuse.toNat?, parseNatList inuse, parseNatList taken with
+      | some n, some lo, some hi, some reuse, some inuse, some taken => sessCheck n lo hi (reuse != 0) inuse taken impl
+      | _, _, _, _, _, _ => "bad-case"
     | _ => "bad-case"
 
 end ScyllaVerif.Drive.C11
